@@ -152,7 +152,12 @@ func checkC17(c *an.Ctx) {
 				return
 			}
 			fa, ok := st.Addr.(*ssa.FieldAddr)
-			if !ok || an.TypeField(fa) != setField {
+			// (a set kept in an object of its own: the field of the loader that holds that object)
+			held := setField
+			if parts := strings.Split(setField, "."); len(parts) > 2 {
+				held = parts[0] + "." + parts[1]
+			}
+			if !ok || an.TypeField(fa) != held {
 				return
 			}
 			fresh, _ := an.FreshBase(fa.X)
@@ -308,6 +313,12 @@ func checkC17(c *an.Ctx) {
 						if path[j].kind == "url" && sameKey(path[j].key, arg) {
 							asGiven = true
 						}
+						// (the name may have been parked in a list built by an earlier pass)
+						for _, alt := range ev.alts[1] {
+							if path[j].kind == "url" && sameKey(path[j].key, alt) {
+								asGiven = true
+							}
+						}
 					}
 					kind := map[bool]string{true: "file", false: "dir"}[callees[0] == ld]
 					if world == 1 && asGiven && callees[0] == ld {
@@ -331,6 +342,42 @@ func checkC17(c *an.Ctx) {
 						nDir++
 					}
 					elems := ev.joins[1]
+					if len(elems) < 2 && len(ev.alts[1]) > 0 {
+						// collected in an earlier pass: every value the list can hold is either the entry as given
+						// (an entry that pass tested with IsURL) or Join(Dir(<importing file>), <entry>)
+						for _, alt := range ev.alts[1] {
+							given := false
+							for j := 0; j < i; j++ {
+								if path[j].kind == "url" && sameKey(path[j].key, alt) {
+									given = true
+								}
+							}
+							// (the collecting pass is a different loop: a path that skips it and enters this one is an
+							// artefact of the exploration — the test is looked for in the function)
+							an.EachInstr(g, func(in ssa.Instruction) {
+								if uc, ok := in.(*ssa.Call); ok && an.ShortCallee(&uc.Call) == "pkg/utils.IsURL" && sameKey(uc.Call.Args[0], alt) {
+									given = true
+								}
+							})
+							if given {
+								continue
+							}
+							jc, isJoin := alt.(*ssa.Call)
+							if !isJoin || (an.ShortCallee(&jc.Call) != "path.Join" && an.ShortCallee(&jc.Call) != "path/filepath.Join") {
+								v.bad = an.FieldProv(alt)
+								continue
+							}
+							je := an.VariadicElems(jc.Call.Args[0])
+							if len(je) < 2 {
+								v.bad = an.FieldProv(alt)
+								continue
+							}
+							if ok2, w := isDirOfImporter(je[0]); !ok2 {
+								v.bad = "joined with " + w + " — not the directory of the file being loaded by this activation (a value kept in the loader is overwritten by nested loads)"
+							}
+						}
+						continue
+					}
 					if len(elems) < 2 {
 						v.bad = an.FieldProv(arg)
 						continue
